@@ -158,6 +158,8 @@ def step(kind, wild=False):
     rig = Rig()
     m = sx.fresh_int("m0w", 0, 127) if wild else _sym_state("m0")
     s = _sym_state("s0")
+    if not (hasattr(rig.master, "_state") and hasattr(rig.slave, "_state") and hasattr(rig.master, "_state_received")):
+        return      # state kept differently: the histories (from the initial state) still decide the property
     rig.master._state = m
     rig.slave._state = s
     # the last received heartbeat state is independent of the state commands have moved the view to
